@@ -223,16 +223,46 @@ func c18Sorted(c *benchseries.Cell) []float64 {
 }
 
 func c18Observe(c c18Case, rs []c18Res, mixed map[string]bool) (*c18Obs, *kit.Fail) {
+	return c18ObserveSplit(c, rs, mixed, -1)
+}
+
+// c18ObserveSplit: with split >= 0 the series are first built (and
+// summarised) from rs[:split] alone, then the remaining results are added to
+// the SAME builder and the series built again; the second build is observed.
+func c18ObserveSplit(c c18Case, rs []c18Res, mixed map[string]bool, split int) (*c18Obs, *kit.Fail) {
 	b, err := benchseries.NewBuilder(c18Options(c.TableKeys))
 	if err != nil {
 		return nil, kit.Failf("monitor-builder", "NewBuilder: %v", err)
 	}
-	if f := c18Feed(b, rs, c.TableKeys, c.Text); f != nil {
-		return nil, f
-	}
 	policy := benchseries.DUPE_REPLACE
 	if c.Policy == 1 {
 		policy = benchseries.DUPE_COMBINE
+	}
+	if split >= 0 && split <= len(rs) {
+		if f := c18Feed(b, rs[:split], c.TableKeys, c.Text); f != nil {
+			return nil, f
+		}
+		// The first instalment is not the case's result set (it may lack
+		// baselines the whole set has, which combining does not tolerate), so
+		// the early build itself is not judged, only survived.
+		func() {
+			defer func() {
+				if recover() != nil {
+					kit.Count("C18 early builds of an incomplete instalment that panicked (not judged)", 1)
+				}
+			}()
+			if early, err := b.AllComparisonSeries(nil, policy); err == nil {
+				for _, cs := range early {
+					if cs != nil {
+						cs.AddSummaries(float64(c.Conf), c.N)
+					}
+				}
+			}
+		}()
+		rs = rs[split:]
+	}
+	if f := c18Feed(b, rs, c.TableKeys, c.Text); f != nil {
+		return nil, f
 	}
 	css, err := b.AllComparisonSeries(nil, policy)
 	if err != nil {
@@ -764,6 +794,19 @@ func c18CheckBuilder(c c18Case) *kit.Fail {
 		if d := c18Diff(first.lines, o.lines); d != "" && knownHashpair == "" {
 			knownHashpair = fmt.Sprintf("insertion order %d (0 = the same order again) differs from the first build only in the denominator hash of a series some of whose trials have no baseline: %s", ord, d)
 		}
+	}
+	// --- the same set added in two instalments with a build in between ---------
+	if knownHashpair == "" && len(c.Results) >= 2 {
+		split := 1 + int(c.OrderSeed%uint64(len(c.Results)-1))
+		o, f := c18ObserveSplit(c, c.order(0), mixed, split)
+		if f != nil {
+			return f
+		}
+		a, b := c18Unmasked(first), c18Unmasked(o)
+		if d := c18Diff(a, b); d != "" {
+			return kit.Failf("incremental-build-differs-"+c18DiffKind(a, b), "adding the first %d results, building the series, adding the other %d and building again differs from one build over all results at %s", split, len(c.Results)-split, d)
+		}
+		kit.Count("C18 two-instalment builds compared", 1)
 	}
 	if knownHashpair != "" {
 		return kit.Failf("hashpair-missing-baseline", "%s", knownHashpair)
